@@ -1,4 +1,121 @@
+"""Replay support: for a failed Verus obligation, look for a concrete failing input by running
+an executable rendering of the same contract clause against the REAL crate (native cargo test
+on the copied tree).  A witness is never evidence for a pass; it only turns
+`no-failing-input-found` into a replayable counterexample.
+"""
+import json
+import os
+import re
+import shutil
+import subprocess
+
+
+def _norm(s):
+    return re.sub(r'\W+', '_', s).strip('_')
+
+
+def _witness_files(VERIF, unit):
+    import glob
+    d = os.path.join(VERIF, 'contracts', 'witness')
+    return sorted(set(glob.glob(os.path.join(d, unit + '.rs')) + glob.glob(os.path.join(d, unit + '.*.rs'))))
+
+
+def _crate_of(path):
+    first = open(path).readline()
+    m = re.match(r'//\s*crate:\s*(\S+)', first)
+    return m.group(1) if m else 'shared'
+
+
+def _tests_in(path):
+    return re.findall(r'#\[test\]\s*(?:#\[[^\]]*\]\s*)*fn\s+(w__\w+)', open(path).read())
+
+
+def run_native_test(src, BUILD, crate, wfile, unit, names, timeout=3600):
+    tdir = os.path.join(src, crate, 'tests')
+    os.makedirs(tdir, exist_ok=True)
+    tname = 'verif_witness_' + _norm(os.path.basename(wfile)[:-3])
+    shutil.copy(wfile, os.path.join(tdir, tname + '.rs'))
+    env = dict(os.environ)
+    env['CARGO_TARGET_DIR'] = os.path.join(BUILD, 'native-target')
+    env['CARGO_NET_OFFLINE'] = 'true'
+    env['RUST_BACKTRACE'] = '0'
+    cmd = ['cargo', 'test', '--offline', '-p', crate, '--test', tname, '--', '--test-threads', '4'] + list(names)
+    try:
+        p = subprocess.run(cmd, cwd=src, env=env, capture_output=True, text=True, timeout=timeout)
+    except subprocess.TimeoutExpired:
+        return None, 'timeout', ' '.join(cmd)
+    out = p.stdout + '\n' + p.stderr
+    res = {}
+    for m in re.finditer(r'^test (w__\w+) \.\.\. (ok|FAILED)', out, re.M):
+        res[m.group(1)] = m.group(2)
+    msgs = {}
+    for m in re.finditer(r"thread '(w__\w+)'[^\n]*panicked at [^\n]*\n([^\n]*)", out):
+        msgs[m.group(1)] = m.group(2).strip()
+    if not res and p.returncode != 0:
+        return None, out[-1500:], ' '.join(cmd)
+    return dict((k, (v, msgs.get(k, ''))) for k, v in res.items()), out[-3000:], ' '.join(cmd)
+
+
 def search(res, pc, src, BUILD, VERIF):
-    pass
+    by_unit = {}
+    for v in res.violations:
+        if v.get('witness') or v.get('back_end') == 'kani':
+            continue
+        by_unit.setdefault(v['unit'], []).append(v)
+    for unit, vs in by_unit.items():
+        for wf in _witness_files(VERIF, unit):
+            _search_file(res, unit, [v for v in vs if not v.get('witness')], wf, src, BUILD, VERIF)
+
+
+def _search_file(res, unit, vs, wf, src, BUILD, VERIF):
+        crate = _crate_of(wf)
+        tests = _tests_in(wf)
+        wanted = set()
+        for v in vs:
+            fpre = 'w__' + _norm(v['fn']) + '__'
+            v['_cands'] = [t for t in tests if t.startswith(fpre + _norm(v['clause'] or ''))] or [t for t in tests if t.startswith(fpre)]
+            wanted.update(v['_cands'])
+        if not wanted:
+            return
+        results, tail, cmd = run_native_test(src, BUILD, crate, wf, unit, sorted(wanted))
+        if results is None:
+            for v in vs:
+                v['note'] = 'witness search could not run: ' + str(tail)[-400:]
+            return
+        for v in vs:
+            for t in v['_cands']:
+                st = results.get(t)
+                if st and st[0] == 'FAILED':
+                    v['witness'] = dict(kind='native-test', crate=crate, unit=unit, test=t, message=st[1], cmd=cmd,
+                                        file=os.path.relpath(wf, VERIF))
+                    break
+            v.pop('_cands', None)
+        # write replay files for witnessed violations
+        for v in vs:
+            if v.get('witness'):
+                rp = os.path.join(VERIF, 'replay', '%s_%s.json' % (res.pid, _norm(v['obligation'])[:80]))
+                json.dump(dict(property=res.pid, kind='native-test', obligation=v['obligation'], unit=unit, fn=v['fn'], clause=v['clause'],
+                               verifier_reason=v['reason'], verifier_output=v.get('rendered'), witness=v['witness']), open(rp, 'w'), indent=1)
+                v['replay'] = rp
+
+
 def replay(pid, path, BUILD, VERIF, REPO):
-    print(open(path).read()); return 1
+    d = json.load(open(path))
+    if d.get('kind') == 'native-test':
+        import main as M
+        src = M.sync_tree(pid)
+        w = d['witness']
+        wf = os.path.join(VERIF, w['file'])
+        results, tail, cmd = run_native_test(src, BUILD, w['crate'], wf, w['unit'], [w['test']])
+        print(tail)
+        if results and results.get(w['test'], ('',))[0] == 'FAILED':
+            print('REPLAYED property=%s obligation="%s" input: %s' % (pid, d['obligation'], results[w['test']][1]))
+            return 1
+        print('NOT-REPRODUCED property=%s obligation="%s"' % (pid, d['obligation']))
+        return 0
+    if d.get('kind') == 'kani-playback':
+        import kani_unit as KU
+        return KU.replay(pid, d, BUILD, VERIF, REPO)
+    print(json.dumps(d, indent=1))
+    print('failed obligation without a concrete input (no-failing-input-found): re-run ./check %s to re-evaluate it' % pid)
+    return 1
